@@ -168,7 +168,7 @@ package unmarshal
 //@ func (*pushRequestDec).decodeStream$1 [C03]
 //@   requires bufOK(p)
 //@   modifies p.TsNs, p.String, p.Value, p.Types, p.Labels
-//@   ensures bufOK(p)
+//@   ensures result == nil ==> bufOK(p)
 
 // One stream object: buffers are emptied, filled by decodeStream and handed to
 // the row builder, which requires them to be aligned.
